@@ -45,6 +45,9 @@ pub struct Seed {
     pub sub: String,
     pub tok: String,
     pub hex_lower: bool,
+    /// leading zeros in the channel number (a valid spelling that must be stored as supplied)
+    #[serde(default)]
+    pub channel_zeros: u8,
 }
 
 fn addr(prefix: &str, label: &str, salt: u8, len: usize) -> String {
@@ -71,7 +74,7 @@ pub fn build(s: &Seed) -> RawCfg {
         unbonding: 1000 + s.salt as u64,
         pprefix: s.pp.clone(),
         ibc_denom: format!("ibc/{hex}"),
-        channel: format!("channel-{}", s.channel),
+        channel: format!("channel-{}{}", "0".repeat(s.channel_zeros as usize % 4), s.channel),
         min_stake: s.salt as u128,
         fee: 1000 * s.salt as u128,
         subdenom: s.sub.clone(),
@@ -412,9 +415,9 @@ fn seed_strategy() -> BoxedStrategy<Seed> {
     let pfx = || prop_oneof![Just("celestia".to_string()), Just("osmo".to_string()), Just("init".to_string()), "[a-z]{1,8}", "[a-z]{1,4}[0-9]{0,2}[a-z]{1,2}"];
     (
         (pfx(), pfx(), proptest::option::weighted(0.2, "[a-z]{2,10}"), 0u8..5, 0u8..4, any::<bool>(), any::<bool>()),
-        (prop_oneof![Just(0u64), 0u64..1000, any::<u64>()], any::<u8>(), "[a-zA-Z]{4,12}", "[a-z]{4,8}", proptest::bool::weighted(0.2)),
+        (prop_oneof![Just(0u64), 0u64..1000, any::<u64>()], any::<u8>(), "[a-zA-Z]{4,12}", "[a-z]{4,8}", proptest::bool::weighted(0.2), prop_oneof![4 => Just(0u8), 1 => 1u8..4]),
     )
-        .prop_map(|((np, pp, vp_custom, n_val, n_mon, oracle, treasury), (channel, salt, sub, tok, hex_lower))| Seed {
+        .prop_map(|((np, pp, vp_custom, n_val, n_mon, oracle, treasury), (channel, salt, sub, tok, hex_lower, channel_zeros))| Seed {
             np,
             pp,
             vp_custom,
@@ -427,6 +430,7 @@ fn seed_strategy() -> BoxedStrategy<Seed> {
             sub,
             tok,
             hex_lower,
+            channel_zeros,
         })
         .boxed()
 }
